@@ -1129,10 +1129,6 @@ func newlineRunsSkippedByLoops(c *core.Ctx) {
 						if last.Tok == token.BREAK {
 							return true
 						}
-					case *ast.ReturnStmt:
-						if len(x.Body.List) > 1 {
-							return true
-						}
 					}
 				}
 				// inside a loop that itself tests NEWLINE: part of the run-skipping loop
